@@ -6,13 +6,17 @@
   (`canonical_stream_fidelity`); integer literals in [-2^63, 2^64) are read exactly; strings are read code
   point for code point (all two-character escapes, `\uXXXX`, raw UTF-8); the upper-case exponent is read
   (`1E2`, the repaired defect F1).
-  Part 2 (`Jawk/Lemmas/ParseSer.lean`, cited below when present): the same for EVERY conforming
-  serialisation (`Ser`): any insignificant white space, any escape spelling, any number spelling.
+  Part 2 (proved, `Jawk/Spec/Json.lean` + `Jawk/Lemmas/ParseSer.lean`): the same for EVERY conforming
+  serialisation: `Ser v bs` is the inductive relation "bs is an RFC 8259 text of v" — any insignificant
+  white space, every escape spelling (raw UTF-8, the eight two-character escapes, `\uXXXX` in either case),
+  every number spelling (`[-]int[.frac][(e|E)[+|-]digits]`; integer literals in range exact, everything
+  else the correctly rounded double, normalised) — `parse_all_serialisations`, `stream_fidelity`.
   The strong reading for numbers — every spelling whose VALUE is an in-range integer is kept exactly — is
   false of model and code alike (known finding F2); its negation is proved below with the witness.
 -/
 import Jawk.Lemmas.RoundTrip
 import Jawk.Lemmas.RunSpec
+import Jawk.Lemmas.ParseSer
 namespace Jawk.C01
 open Jawk RT
 
@@ -65,6 +69,27 @@ theorem isStr_eq {r : Except PErr (Option JV)} {s : Str} (h : isStr r s = true) 
   unfold isStr at h; split at h <;> simp_all
 theorem isEnd_eq {r : Except PErr (Option JV)} (h : isEnd r = true) : r = .ok none := by
   unfold isEnd at h; split at h <;> simp_all
+
+/-! ### every conforming serialisation -/
+
+/-- MAIN: positioned before any white space, ANY conforming text of `v` (relation `Ser`), and any
+continuation that does not extend a number, the parser returns exactly `v` and stops exactly after the text -/
+theorem parse_all_serialisations {v : JV} {bs : List Byte} (h : Ser.Ser v bs) (rest : List Byte)
+    (hd : Ser.Delimited v rest) (ws : List Byte) (hws : Ser.Ws ws) (r : Reader)
+    (hr : Ready r (ws ++ bs ++ rest)) (fuel : Nat) (hf : Ser.fuelFor ws bs ≤ fuel) :
+    ∃ r', nextValue fuel r = (.ok (some v), r') ∧ Ready r' rest := Ser.parse_ser h rest hd ws hws r hr fuel hf
+
+/-- stream fidelity: for any sequence of values, each in any conforming spelling, separated by any white space
+(nothing where two tokens may touch: only a number needs a delimiter), successive reads return exactly those
+values, in order, and then end of input — none dropped, duplicated, split in two or merged with a neighbour -/
+theorem stream_fidelity (lead : List Byte) (hlead : Ser.Ws lead) (items : List (JV × List Byte × List Byte))
+    (h : Ser.StreamOK items) (name : Option Str) :
+    ∃ r' r'', Reads (Reader.ofBytes (lead ++ Ser.streamText items) name) (items.map (·.1)) r' ∧
+      r'.nextJson = (.ok none, r'') := Ser.stream_fidelity lead hlead items h name
+
+/-- non-vacuity: `[ 1E2 ,⇥"a\u0041\n" , {"k" : [-0.5e-1, true], "" :{ }}⏎]` is a conforming text (exponent
+spellings, an escaped string, nesting, arbitrary white space) of the value it should denote -/
+theorem conforming_text_example : Ser.Ser Ser.exValue (utf8 Ser.exText.toList) := Ser.ex_ser
 
 /-- the repaired defect F1: `1E2 3` is two values, `100` and `3` (upper-case exponent marker) -/
 theorem upper_case_exponent :
